@@ -18,6 +18,7 @@ import (
 	"strings"
 	"sync"
 	"testing"
+	"time"
 
 	"github.com/coredhcp/coredhcp/logger"
 	"github.com/sirupsen/logrus"
@@ -104,6 +105,28 @@ func Tier() string { return Env("VERIF_TIER", "quick") }
 func FirstShard() bool {
 	s := os.Getenv("VERIF_SHARD")
 	return s == "" || strings.HasSuffix(s, ".0") || !strings.Contains(s, ".")
+}
+
+// WaitTimeout waits for wg, but gives up when abort is closed (a goroutine
+// reported a panic: the others may be parked on a lock the panicking one still
+// holds) or after d. It reports whether every goroutine finished.
+func WaitTimeout(wg *sync.WaitGroup, abort <-chan struct{}, d time.Duration) bool {
+	done := make(chan struct{})
+	go func() { wg.Wait(); close(done) }()
+	select {
+	case <-done:
+		return true
+	case <-abort:
+		// give the others a moment to finish on their own
+		select {
+		case <-done:
+			return true
+		case <-time.After(200 * time.Millisecond):
+			return false
+		}
+	case <-time.After(d):
+		return false
+	}
 }
 
 // Thorough tells whether the thorough tier is running.
